@@ -24,6 +24,12 @@
 //!      viable candidate.
 //! Sanity axioms on the measured 1-parameter relation are checked before it is used.
 //!
+//! Mixed viability (phase 1b): sets of 3-5 candidates with 2-3 parameters in which some candidates can not take the
+//! arguments at all (`out` parameter of another type / bound to an r-value or literal, a vector that would have to be
+//! widened, another number of parameters) next to viable candidates of different scalar kinds, every permutation. The
+//! verdict compared by oracle 1 includes the KIND of a rejection (ambiguous vs unmatched); a difference in only that
+//! kind has its own signature class `overload|order-dependent-rejection-kind|..`.
+//!
 //! Declaration forms: free functions (all spaces), methods of a struct called as `s.f(x)`, methods called
 //! unqualified from a sibling method (`Form`); the IR shows the resolved callee in all three.
 //!
@@ -615,6 +621,10 @@ impl Base {
         }
     }
     fn cand_viable(&self, cand: &[P], args: &[A]) -> Option<bool> {
+        // a candidate of another arity can not take the arguments (there are no default arguments in the space)
+        if cand.len() != args.len() {
+            return Some(false);
+        }
         let mut all = true;
         for (p, a) in cand.iter().zip(args) {
             match self.viable(*a, *p) {
@@ -968,6 +978,9 @@ fn doc_model(base: &Base, set: &[Sig], a: A) -> Option<V> {
 fn exact_candidates(set: &[Sig], args: &[A]) -> Vec<usize> {
     let mut out = Vec::new();
     'c: for (ci, c) in set.iter().enumerate() {
+        if c.len() != args.len() {
+            continue;
+        }
         for (p, a) in c.iter().zip(args) {
             match a_ty(*a) {
                 Some(t) if t == p_ty(*p) && (!p_out(*p) || a_lvalue(*a)) => {}
@@ -984,8 +997,10 @@ fn exact_candidates(set: &[Sig], args: &[A]) -> Vec<usize> {
 fn process_set(env: &Env, set: &[Sig], tuples: &[Vec<A>], acc: &mut Acc) -> Vec<V> {
     let perms = layouts_of(set.len(), env.gaps);
     let nt = tuples.len();
-    let nparams = set[0].len();
-    let tag = env.sig_tag();
+    // the number of arguments of the calls (= the number of parameters of every candidate, except in the mixed-arity sets)
+    let nparams = tuples.first().map(|t| t.len()).unwrap_or(set[0].len());
+    let mixed_arity = set.iter().any(|c| c.len() != set[0].len());
+    let tag = if mixed_arity { format!("|mixed-arity{}", env.sig_tag()) } else { env.sig_tag() };
     // findings keep the example with the lowest index per signature: rank simpler sets first across all spaces
     acc.cur_index = ((((env.form.rank() * 2 + env.gaps as usize) * 64 + nparams * 8 + set.len()) as u64) << 40) | (acc.cur_index & ((1 << 40) - 1));
     let rs = Resolver { set, perms: &perms, tuples };
@@ -1064,8 +1079,10 @@ fn process_set(env: &Env, set: &[Sig], tuples: &[Vec<A>], acc: &mut Acc) -> Vec<
             let v = verdicts[pi * nt + ti];
             if v != v0 && v != V::Bad && v0 != V::Bad {
                 let order = |p: &[u8]| layout_show(set, p);
+                // both orders reject the call but one calls it ambiguous, the other unmatched: its own (narrower) class
+                let class = if matches!(v, V::Amb | V::NoMatch) && matches!(v0, V::Amb | V::NoMatch) { "order-dependent-rejection-kind" } else { "order-dependent" };
                 acc.violation(Violation {
-                    signature: format!("overload|order-dependent|{}-param{}", nparams, tag),
+                    signature: format!("overload|{}|{}-param{}", class, nparams, tag),
                     detail: format!(
                         "args ({}): declared as [{}] the call {}, declared as [{}] it {} — program (second order):\n{}",
                         args_show(args),
@@ -1187,7 +1204,7 @@ fn process_set(env: &Env, set: &[Sig], tuples: &[Vec<A>], acc: &mut Acc) -> Vec<
             }
             for (di, d) in set.iter().enumerate() {
                 // the pairs of one-parameter candidates *define* the relation
-                if !env.use_pref {
+                if !env.use_pref || cs.len() != args.len() {
                     break;
                 }
                 if di == c as usize || env.base.cand_viable(d, args) != Some(true) {
@@ -1218,6 +1235,11 @@ fn process_set(env: &Env, set: &[Sig], tuples: &[Vec<A>], acc: &mut Acc) -> Vec<
                 acc.count("info_unmatched_although_viable_candidates_exist");
             }
             let viable: Vec<&Sig> = set.iter().filter(|c| env.base.cand_viable(c, args) == Some(true)).collect();
+            // non-vacuity of the mixed-viability spaces: a rejected call with several viable candidates next to at least
+            // one candidate that can not take the arguments (its position in the order must not matter)
+            if viable.len() > 1 && viable.len() < set.len() {
+                acc.count(if v0 == V::NoMatch { "info_unmatched_with_several_viable_and_some_non_viable_candidates" } else { "info_ambiguous_with_several_viable_and_some_non_viable_candidates" });
+            }
             if viable.len() > 1 && viable.iter().any(|c| viable.iter().all(|d| std::ptr::eq(*d, *c) || env.base.dominates(c, d, args) == Some(true))) {
                 acc.count("info_rejected_although_one_candidate_dominates_all");
             }
@@ -1405,6 +1427,188 @@ pub fn run(ctx: &Ctx) -> i32 {
         rep.acc.merge(acc);
     }
 
+    // ---- phase 1b: sets of 3-5 MULTI-parameter candidates of MIXED VIABILITY. A candidate can fail to take the arguments
+    // because of an `out` parameter (other type, r-value or literal argument), because a vector would have to be widened,
+    // or because it has another number of parameters. Such a candidate must be invisible to the verdict wherever it is
+    // declared - including to the KIND of a rejection: with two viable candidates that each convert one argument better
+    // than the other there is no best candidate, and whether rssl calls that ambiguous or unmatched must not depend on
+    // where the non-viable candidate sits in the declaration order. Added after a seeded change was missed that
+    // re-classified the rejection from the viability of the LAST declared candidate only: all earlier multi-parameter
+    // spaces had either only two candidates or only candidates that are viable for every argument tuple (scalar `in`
+    // parameters) or candidates of one scalar kind (which are never incomparable). Needs only the measured one-parameter
+    // relation; it runs before the large one-parameter spaces so that a wall-clock cap on a loaded machine does not cut it.
+    {
+        let envm = Env { base: &base, witness: false, space: "mixed", batch: 128, crosscheck: 1009, use_pref: true, probe_cpu, form: Form::Free, gaps: false, doc: false };
+        let sample = |name: &str, set: &[Sig], tuples: &[Vec<A>], v: &[V], acc: &mut Acc| {
+            acc.sample(obj(vec![
+                ("space", name.into()),
+                ("set", set_show(set).into()),
+                ("verdicts", Json::Arr(v.iter().enumerate().step_by(5).map(|(t, v)| format!("({}) {}", args_show(&tuples[t]), v_show(*v, set)).into()).collect())),
+            ]));
+        };
+        let lv = |s: usize, d: u8| -> A { ty_of(s, d) };
+        let rv = |s: usize, d: u8| -> A { ty_of(s, d) + 24 };
+        let pin = |s: usize, d: u8| -> P { p_code(ty_of(s, d), false) };
+        let pout = |s: usize, d: u8| -> P { p_code(ty_of(s, d), true) };
+        const I: usize = 1;
+        const U: usize = 2;
+        const H: usize = 3;
+        const F: usize = 4;
+        const D: usize = 5;
+
+        // (a) triples of two-parameter candidates over K scalar kinds × {in, out}; arguments: l-values, r-values, both
+        // literals. quick: {int, float} (16 signatures, 560 triples, 36 tuples); thorough: also {int, uint, float} and
+        // {half, float, double} (36 signatures, 7140 triples each; l-values and literals, 25 tuples). Every permutation.
+        let families: Vec<(&str, Vec<usize>, bool)> =
+            ctx.pick(vec![("int_float", vec![I, F], true)], vec![("int_float", vec![I, F], true), ("int_uint_float", vec![I, U, F], false), ("half_float_double", vec![H, F, D], false)]);
+        for (fam, kinds, rvalues) in &families {
+            let types: Vec<P> = kinds.iter().flat_map(|s| [pin(*s, 1), pout(*s, 1)]).collect();
+            let mut alpha: Vec<A> = kinds.iter().map(|s| lv(*s, 1)).collect();
+            if *rvalues {
+                alpha.extend(kinds.iter().map(|s| rv(*s, 1)));
+            }
+            alpha.push(A_LIT_INT);
+            alpha.push(A_LIT_FLOAT);
+            let tuples = tuples_over(&alpha, 2);
+            let sigs = sigs_over(&types, 2);
+            let trips = subsets(sigs.len(), 3);
+            let name = format!("p2_in_out_triples_{}", fam);
+            let every = (trips.len() as u64 / 4).max(1);
+            let r = run_par(ctx, trips.len() as u64, 1, |idx, acc| {
+                let set: Vec<Sig> = trips[idx as usize].iter().map(|i| sigs[*i].clone()).collect();
+                let v = process_set(&envm, &set, &tuples, acc);
+                if idx % every == 1 {
+                    sample(&name, &set, &tuples, &v, acc);
+                }
+            });
+            absorb(ctx, &mut rep, &name, r);
+        }
+
+        // (b) sets of 4 and 5 two-parameter candidates: {int, float, out float} × {int, float} (6 signatures; thorough:
+        // {int, float, out float}² = 9 signatures), every subset of 4 and of 5, all 24 / 120 permutations; arguments
+        // l-values of int and float and both literals (16 tuples)
+        {
+            let first = vec![pin(I, 1), pin(F, 1), pout(F, 1)];
+            let second = ctx.pick(vec![pin(I, 1), pin(F, 1)], first.clone());
+            let sigs: Vec<Sig> = first.iter().flat_map(|a| second.iter().map(move |b| vec![*a, *b])).collect();
+            let tuples = tuples_over(&[lv(I, 1), lv(F, 1), A_LIT_INT, A_LIT_FLOAT], 2);
+            let mut sets: Vec<Vec<usize>> = subsets(sigs.len(), 4);
+            sets.extend(subsets(sigs.len(), 5));
+            let every = (sets.len() as u64 / 4).max(1);
+            let r = run_par(ctx, sets.len() as u64, 1, |idx, acc| {
+                let set: Vec<Sig> = sets[idx as usize].iter().map(|i| sigs[*i].clone()).collect();
+                let v = process_set(&envm, &set, &tuples, acc);
+                if idx % every == 1 {
+                    sample("p2_in_out_sets_of_4_and_5", &set, &tuples, &v, acc);
+                }
+            });
+            absorb(ctx, &mut rep, "p2_in_out_sets_of_4_and_5", r);
+        }
+
+        // (c) triples of two-parameter candidates over {int, float} × vector widths {2, 3} (thorough {2, 3, 4}): a narrower
+        // vector argument can not be widened, a wider one is truncated; arguments: l-values of the same types
+        {
+            let dims: &[u8] = ctx.pick(&[2, 3], &[2, 3, 4]);
+            let types: Vec<P> = [I, F].iter().flat_map(|s| dims.iter().map(move |d| pin(*s, *d))).collect();
+            let alpha: Vec<A> = types.iter().map(|p| p_ty(*p)).collect();
+            let tuples = tuples_over(&alpha, 2);
+            let sigs = sigs_over(&types, 2);
+            let trips = subsets(sigs.len(), 3);
+            let every = (trips.len() as u64 / 4).max(1);
+            let r = run_par(ctx, trips.len() as u64, 1, |idx, acc| {
+                let set: Vec<Sig> = trips[idx as usize].iter().map(|i| sigs[*i].clone()).collect();
+                let v = process_set(&envm, &set, &tuples, acc);
+                if idx % every == 1 {
+                    sample("p2_vector_widening_triples", &set, &tuples, &v, acc);
+                }
+            });
+            absorb(ctx, &mut rep, "p2_vector_widening_triples", r);
+        }
+
+        // (d) triples of candidates of MIXED ARITY over {int, float}: 2 + 4 + 8 signatures with 1, 2 and 3 `in` parameters;
+        // quick: the 60 triples of two two-parameter candidates and one candidate with 1 or 3 parameters, thorough: all
+        // 364 triples. Called with 1, 2 and 3 arguments (l-values of int and float, both literals: 4 + 16 + 64 tuples)
+        {
+            let ty2 = [pin(I, 1), pin(F, 1)];
+            let mut sigs: Vec<Sig> = Vec::new();
+            for n in 1..=3 {
+                sigs.extend(sigs_over(&ty2, n));
+            }
+            let trips: Vec<Vec<usize>> = subsets(sigs.len(), 3)
+                .into_iter()
+                .filter(|t| {
+                    let n2 = t.iter().filter(|i| sigs[**i].len() == 2).count();
+                    !ctx.quick() || n2 == 2
+                })
+                .collect();
+            let alpha = [lv(I, 1), lv(F, 1), A_LIT_INT, A_LIT_FLOAT];
+            let tuples_by_arity: Vec<Vec<Vec<A>>> = (1..=3).map(|n| tuples_over(&alpha, n)).collect();
+            let every = (trips.len() as u64 / 4).max(1);
+            let r = run_par(ctx, trips.len() as u64, 1, |idx, acc| {
+                let set: Vec<Sig> = trips[idx as usize].iter().map(|i| sigs[*i].clone()).collect();
+                for tuples in &tuples_by_arity {
+                    let v = process_set(&envm, &set, tuples, acc);
+                    if idx % every == 1 && tuples[0].len() == 2 {
+                        sample("mixed_arity_triples", &set, tuples, &v, acc);
+                    }
+                }
+            });
+            absorb(ctx, &mut rep, "mixed_arity_triples", r);
+        }
+
+        // (e) triples of three-parameter candidates over {int, float, out float}; quick: only the first parameter may be
+        // `out` (12 signatures, 220 triples), thorough: all 27 signatures (2925 triples); arguments: l-values of int and
+        // float (8 tuples)
+        {
+            let first = vec![pin(I, 1), pin(F, 1), pout(F, 1)];
+            let rest = ctx.pick(vec![pin(I, 1), pin(F, 1)], first.clone());
+            let mut sigs: Vec<Sig> = Vec::new();
+            for a in &first {
+                for b in &rest {
+                    for c in &rest {
+                        sigs.push(vec![*a, *b, *c]);
+                    }
+                }
+            }
+            let tuples = tuples_over(&[lv(I, 1), lv(F, 1)], 3);
+            let trips = subsets(sigs.len(), 3);
+            let every = (trips.len() as u64 / 4).max(1);
+            let r = run_par(ctx, trips.len() as u64, 1, |idx, acc| {
+                let set: Vec<Sig> = trips[idx as usize].iter().map(|i| sigs[*i].clone()).collect();
+                let v = process_set(&envm, &set, &tuples, acc);
+                if idx % every == 1 {
+                    sample("p3_in_out_triples", &set, &tuples, &v, acc);
+                }
+            });
+            absorb(ctx, &mut rep, "p3_in_out_triples", r);
+        }
+
+        // (f) the same for methods (called as `s.f(a, b)` and unqualified from a sibling method declared after the
+        // overloads): triples of two-parameter methods over {int, float, out float} × {int, float} (6 signatures, 20
+        // triples; thorough: {int, float} × {in, out} squared = 16 signatures, 560 triples), 16 tuples, every permutation
+        {
+            let sigs: Vec<Sig> = if ctx.quick() {
+                [pin(I, 1), pin(F, 1), pout(F, 1)].iter().flat_map(|a| [pin(I, 1), pin(F, 1)].into_iter().map(move |b| vec![*a, b])).collect()
+            } else {
+                sigs_over(&[pin(I, 1), pout(I, 1), pin(F, 1), pout(F, 1)], 2)
+            };
+            let tuples = tuples_over(&[lv(I, 1), lv(F, 1), A_LIT_INT, A_LIT_FLOAT], 2);
+            let trips = subsets(sigs.len(), 3);
+            for (name, form) in [("p2_in_out_method_triples", Form::Method), ("p2_in_out_method_internal_triples", Form::MethodInternal)] {
+                let env = envm.with(form, false, false);
+                let every = (trips.len() as u64 / 4).max(1);
+                let r = run_par(ctx, trips.len() as u64, 1, |idx, acc| {
+                    let set: Vec<Sig> = trips[idx as usize].iter().map(|i| sigs[*i].clone()).collect();
+                    let v = process_set(&env, &set, &tuples, acc);
+                    if idx % every == 1 {
+                        sample(name, &set, &tuples, &v, acc);
+                    }
+                });
+                absorb(ctx, &mut rep, name, r);
+            }
+        }
+    }
+
     // ---- phase 2: triples of one-parameter candidates
     let in_types: Vec<P> = (0..NTY as u8).map(|t| p_code(t, false)).collect();
     let mut triples: Vec<Vec<Sig>> = subsets(NTY, 3).iter().map(|s| s.iter().map(|i| vec![in_types[*i]]).collect()).collect();
@@ -1555,7 +1759,7 @@ pub fn run(ctx: &Ctx) -> i32 {
         .map(|(_, p)| p)
         .collect();
     if ctx.quick() {
-        rep.caps_hit.push("quick tier: 2-parameter pairs use dims {1,2}, all scalar-only pairs and every 28th other pair; 2-parameter triples every 32nd; 2-parameter method pairs every 16th; method triples, method-internal and interleaved free sets over the 6 scalar types only; 3-parameter pairs over 4 scalar types, every 10th pair (thorough enumerates all)".into());
+        rep.caps_hit.push("quick tier: 2-parameter pairs use dims {1,2}, all scalar-only pairs and every 28th other pair; 2-parameter triples every 32nd; 2-parameter method pairs every 16th; method triples, method-internal and interleaved free sets over the 6 scalar types only; 3-parameter pairs over 4 scalar types, every 10th pair (thorough enumerates all); mixed-viability sets: in/out triples over {int,float} only, sets of 4-5 over 6 signatures, vector widths {2,3}, mixed-arity triples with two 2-parameter candidates, 3-parameter triples with `out` in the first position only, method triples over 6 signatures (thorough: 3 scalar families of 36 signatures, 9 signatures, widths {2,3,4}, all 364 mixed-arity triples, all 27 three-parameter signatures, 16 method signatures)".into());
     }
     let r = run_par(ctx, pairs2.len() as u64, 1, |idx, acc| {
         let (i, j) = pairs2[idx as usize];
@@ -1663,6 +1867,7 @@ pub fn run(ctx: &Ctx) -> i32 {
     rep.cov("p2_argument_tuples", Json::Int(tuples2.len() as i64));
     rep.cov("declaration_forms", Json::Arr(vec!["free".into(), "method".into(), "method-internal".into(), "free-interleaved".into()]));
     rep.cov("layouts_per_set_with_gap", Json::Str("n! permutations × (n+1) positions of one differently named declaration: 6 for pairs, 24 for triples, 120 for sets of 4".into()));
+    rep.cov("mixed_viability_kinds", Json::Arr(vec!["out parameter of another type".into(), "out parameter bound to an r-value or literal".into(), "vector would have to be widened".into(), "another number of parameters".into()]));
     rep.cov("p3_signatures", Json::Int(sigs3.len() as i64));
     rep.cov("p3_argument_tuples", Json::Int(tuples3.len() as i64));
     rep.assumptions = vec![
@@ -1672,6 +1877,7 @@ pub fn run(ctx: &Ctx) -> i32 {
         "accepted call sites share a compilation unit (one test function per site, one privately named overload set per declaration order); the assumption that unrelated declarations do not influence a verdict is cross-checked by recompiling every 97th (1 parameter) / 1009th (2-3 parameters) batched site alone; rejected sites are always compiled alone".into(),
         "oracle 2 applies when exactly one candidate has parameter types equal to the argument types with a fitting value category; a set containing both f(T) and f(out T) called with an l-value of type T has two such candidates (rssl rejects the call as ambiguous) and is counted in exact_match_excluded_in_out_twins instead".into(),
         "oracle 3 is the property's wording only: a selected candidate must not be dominated; rejecting a call although one candidate dominates all others, and reporting 'no match' (instead of 'ambiguous') when several viable candidates each win one argument, are counted as info_* and not treated as violations".into(),
+        "mixed viability (phase 1b): candidate sets in which some candidates can not take the arguments, every permutation, free functions: (a) all triples of two-parameter candidates over {int,float}×{in,out} (16 signatures, 560 triples) × 36 tuples of l-values, r-values and both literals [thorough: also {int,uint,float} and {half,float,double}, 36 signatures, 7140 triples each, × 25 tuples of l-values and literals]; (b) all subsets of 4 and 5 of the 6 signatures {int,float,out float}×{int,float} [thorough: 9 signatures {int,float,out float}²] × 16 tuples × 24 / 120 orders; (c) all 560 triples over {int,float}×widths{2,3} squared [thorough: widths {2,3,4}, 7140 triples] × l-values of the same types; (d) triples of candidates of different arity over {int,float} (1, 2 and 3 `in` parameters; quick: the 60 triples with exactly two 2-parameter candidates, thorough: all 364) called with 1, 2 and 3 arguments (84 tuples); (e) triples of three-parameter candidates over {int,float,out float} (quick: `out` only in the first position, 220 triples; thorough: 2925) × 8 l-value tuples; (f) triples of two-parameter methods, called as s.f(a,b) and unqualified from a sibling method (quick 20, thorough 560 triples) × 16 tuples. A candidate of another arity is taken to be not viable (there are no default arguments in the space). Oracles 1-3 apply unchanged; oracle 1 compares the full verdict including whether a rejection is 'ambiguous' or 'unmatched' (the property names both), which of the two a given rejection should be is NOT demanded".into(),
         "outside the space: inout parameters, matrices, arrays, qualified (const/volatile) arguments, default arguments, templates, static methods, inherited/templated structs, namespaces/using, more than one differently named declaration inside an overload group, data members between methods; candidates have bodies; r-values are results of declared-only helper functions; untyped literals are `0` and `0.0`".into(),
         "method spaces: quick = method pairs over all 24 types, method triples / method-internal pairs+triples / interleaved free pairs+triples over the 6 scalar types, every 16th pair of two-parameter scalar methods; thorough = method and method-internal pairs and triples over all 24 types, method sets of 4 over the scalars, all 630 pairs of two-parameter scalar methods".into(),
         "2 parameters: `in` parameters over scalars × dims {1,2,4} (thorough; quick {1,2}) plus the {int,float}×{in,out} family with l-value/r-value/literal arguments; 3 parameters: pairs over 5 scalar types bool,int,half,float,double (quick: 4, without double); sets of 4-5 candidates: one scalar parameter, every subset of the 6 scalar types, every permutation".into(),
@@ -1792,7 +1998,7 @@ pub fn replay(ctx: &Ctx, body: &str) -> i32 {
                     }
                 }
             }
-            if set.is_empty() || set.iter().any(|c| c.len() != args.len()) {
+            if set.is_empty() || args.is_empty() || set.iter().any(|c| c.is_empty()) {
                 eprintln!("machinery error: malformed case");
                 return 2;
             }
